@@ -253,10 +253,13 @@ def helper_sites(F, f, mode):
                 if pp is not None:
                     mp = pp
                     break
-            ok = own and rp is not None and rp[1] == () and mp is not None and rp[0] <= len(args) and mp[0] <= len(args)
+            ok = own and rp is not None and mp is not None and rp[0] <= len(args) and mp[0] <= len(args)
             if ok:
-                d_arg = as_param_path(args[rp[0] - 1])
-                m_arg = as_param_path(args[mp[0] - 1])
+                # compose the helper-relative paths with what the caller hands over (the helper may take the parts or the whole builder)
+                d0 = as_param_path(args[rp[0] - 1])
+                m0 = as_param_path(args[mp[0] - 1])
+                d_arg = (d0[0], tuple(d0[1]) + tuple(rp[1])) if d0 is not None else None
+                m_arg = (m0[0], tuple(m0[1]) + tuple(mp[1])) if m0 is not None else None
                 ok = d_arg == (1, ('difficulty',)) and m_arg is not None and m_arg[0] == 1 and m_arg[1][:1] == ('map_or_attrs',)
             out.append((ok, 'via %s: mode %s (instantiated with %s), Difficulty `%s`, map `%s`' % (
                 h.path.split('::')[-1], htargs, [i for i in inst if MODE_MARKER[mode] in str(i)][:1], prov.show(args[rp[0] - 1], maxdepth=3) if rp and rp[0] <= len(args) else '?',
